@@ -1,16 +1,341 @@
-import Ebv.Model.GenFixed
-import Ebv.Lemmas.FloatDec
-/-! # C02 — fixed-point arithmetic follows the per-100000 decimal semantics (work in progress) -/
+import Ebv.Props.C01
+import Ebv.Lemmas.FixedHomo
+import Ebv.Lemmas.FixedElab
+/-! # C02 — fixed-point arithmetic follows the per-100000 decimal semantics
+
+Model: `Ebv.GenFixed` on top of `Ebv.Gen` (tied to ebpfcat/ebpf.py by exact opcode-list correspondence,
+harness/vh/props/c02.py), float conversion `Ebv.F64` (validated against CPython by a sweep).  Proof chain:
+
+* `elabF_rep` (= `fx_typing`, Lemmas/FixedElab.lean): induction over surface expressions, over ℤ/ℚ, all signs — the
+  operator overloads insert exactly the scale factors that make C01's integer semantics `evalZ` of the built tree equal
+  the exact rational value `semQ` (every operation's exact result dropped by floor), times `10^5` iff typed fixed;
+* `evalBV_eq_evalZ_fx` (Lemmas/FixedHomo.lean): the unsigned `DIV`/`MOD` compute `//`, `%` for non-negative operands
+  that fit the width; with C01's `calc_correct` (through `setReg_correct`/`setMem_correct`) this gives `C02_ops_*`;
+* `C02_const`: decimal literals `n/10^5`, `|n| < 2^51`, are stored exactly (error bound for the two roundings);
+* `*_refuted`: the inherited defect classes on concrete witnesses; `C02_partial` excludes them by hypothesis. -/
 namespace Ebv.C02
 open Ebv.Ebpf Ebv.Gen Ebv.GenFixed Ebv.F64
 
-/-- **C02_const**: every decimal `d = n / 10^5` with `|n| < 2^51` is stored as exactly `n` -/
-theorem C02_const (n : Int) (h : n.natAbs < 2 ^ 51) : decConst n = n := by
-  unfold decConst sgn
-  rcases Nat.eq_zero_or_pos n.natAbs with h0 | h0
-  · have : n = 0 := by omega
-    subst this; decide
-  · rw [decConstAbs_eq _ h0 h]
-    split <;> omega
+/-! ## constants and the Python side -/
+
+/-- **C02_const**: for every decimal `d = n / 10^5` with `|n| < 2^51` the integer `Constant.__init__` stores
+(`round(float(d) * 100000)` in the binary64 model: nearest double, exact product rounded to a double, round-half-even)
+is exactly `n` -/
+theorem C02_const (n : Int) (h : n.natAbs < 2 ^ 51) : decConst n = n := decConst_eq n h
+
+/-- **Python-side round trip** of an `x` map variable: `ArrayGlobalVarDesc.__set__` stores exactly `n`, and
+`unpack` (`stored / FIXED_BASE`, a correctly rounded division) reads back the double nearest to `n / 10^5` — the very
+float the user wrote -/
+theorem C02_py_roundtrip (n : Int) (h : n.natAbs < 2 ^ 51) :
+    decConst n = n ∧ pyGet (decConst n) = roundToDouble (mkRat n B) := by
+  rw [C02_const n h]; exact ⟨rfl, rfl⟩
+
+/-- why the conversion has to round: the double product for `0.29` lies below `29000` -/
+theorem product_below_witness :
+    let x := flPos 29000 B
+    let y := dyFrac (x.1 * B) x.2
+    let z := flPos y.1 y.2
+    let f := dyFrac z.1 z.2
+    f.1 / f.2 = 28999 ∧ rne f.1 f.2 = 29000 := by decide +kernel
+
+/-! ## `fx_typing` -/
+
+/-- **fx_typing**: see `Ebv.GenFixed.elabF_rep`; restated for expression objects — a node typed fixed denotes
+`value · 10^5`, a node typed integer denotes `value` -/
+theorem fx_typing (env : FEnv) (σ : State) (s : FExpr) (e : Expr) (f : Bool) (hok : s.ok env = true)
+    (h : elabF env s = .ok (.ex e f)) :
+    f = s.isFixed env ∧ (evalZ σ e : Rat) = s.semQ env σ * (if f then SQ else 1) := by
+  obtain ⟨h1, h2, _⟩ := elabF_rep env σ s _ hok h (by simp)
+  exact ⟨h1, h2⟩
+
+/-- the store scaling of `RegisterArray.__setitem__` / `Memory._set`: the stored tree evaluates to the scaled integer
+(fixed destination) or to the floor (integer destination) of the value -/
+theorem storeVal_rep (σ : State) (df : Bool) (fe : FE) (q : Rat) (h : Rep σ fe q) :
+    evalZ σ (storeVal df fe) = storeQ df q := by
+  obtain ⟨e, f⟩ := fe
+  have cast_inj : ∀ a b : Int, (a : Rat) = (b : Rat) → a = b := fun a b hh => Rat.intCast_inj.mp hh
+  cases df <;> cases f <;>
+    simp only [storeVal, storeQ, Rep, scale, Bool.false_eq_true, if_false, if_true, Bool.and_self, Bool.and_true,
+      Bool.and_false, Bool.not_true, Bool.not_false, Bool.true_and, Bool.false_and] at h ⊢
+  · rw [Rat.mul_one] at h
+    rw [← h, Rat.floor_intCast]
+  · simp only [evalZ, BinOp.evalZ]
+    rw [← floor_div_int, cast_FB, h]
+    congr 1
+    rw [SQ_eq]; grind
+  · rw [evalZ_imul]
+    have : ((evalZ σ e * FB : Int) : Rat) = q * SQ := by rw [Rat.intCast_mul, cast_FB, h]; grind
+    rw [← this, Rat.floor_intCast]
+  · rw [← h, Rat.floor_intCast]
+
+/-! ## `C02_ops`: the emitted code computes that integer -/
+
+/-- **C02_ops (register destination)**: if the generator accepts `self.<view>[no] = e` for a tree of the fixed-point
+fragment outside C01's program-level classes, the emitted code terminates from every state; if in that state every
+`DIV`/`MOD` node has non-negative operands fitting the width (`divOk`), the destination agrees with the integer value
+`evalZ` at the width of the view; every other owned register and the memory are unchanged -/
+theorem C02_ops_reg (e : Expr) (no : Nat) (long : Bool) (g g' : GenState)
+    (hp : PreReg e no long g) (hf : e.fxOnly = true) (h : setReg no long (.ex e) g = .ok ((), g')) :
+    Emits g g' (fun σ σ' => (divOk σ long e → AgreeZ long (σ'.regs no) (evalZ σ e)) ∧
+      (∀ n ∈ g.owners, n ≠ no → σ'.regs n = σ.regs n) ∧ σ'.mem = σ.mem) := by
+  obtain ⟨⟨⟨c, hc, hst, hrun⟩, hstack⟩, _⟩ := setReg_correct e no long g g' hp h
+  refine ⟨⟨c, hc, hst, ?_⟩, hstack⟩
+  intro σ
+  obtain ⟨σ', he, hv, hfr, hm⟩ := hrun σ
+  refine ⟨σ', he, ?_, hfr, hm⟩
+  intro hd
+  rw [agreeZ_iff]
+  exact Agree.trans hv ((agreeZ_iff _ _ _).mp (evalBV_eq_evalZ_fx σ long e hf hd))
+
+/-- **C02_ops (memory destination)**: likewise for a variable of format `fmt` at `base + off` (`x` variables are
+8-byte signed, `fmt = q`): the variable's bytes are the little-endian encoding of `evalZ` modulo `2^(8·size)` -/
+theorem C02_ops_mem (e : Expr) (fmt : Fmt) (addr : Expr) (base : Nat) (off : Int) (g g' : GenState)
+    (hs : addr.asSum = some (base, off)) (hp : PreMem e fmt base g) (hf : e.fxOnly = true)
+    (h : setMem fmt addr (.ex e) g = .ok ((), g')) :
+    Emits g g' (fun σ σ' => (∀ n ∈ g.owners, σ'.regs n = σ.regs n) ∧
+      (divOk σ fmt.isLong e → σ'.mem = storeN σ.mem (σ.regs base + BitVec.ofInt 64 off) fmt.size
+        (BitVec.ofInt 64 (evalZ σ e)).toNat)) := by
+  obtain ⟨⟨⟨c, hc, hst, hrun⟩, hstack⟩, _⟩ := setMem_correct e fmt addr base off g g' hs hp h
+  refine ⟨⟨c, hc, hst, ?_⟩, hstack⟩
+  intro σ
+  obtain ⟨σ', he, hfr, hm⟩ := hrun σ
+  refine ⟨σ', he, hfr, ?_⟩
+  intro hd
+  rw [hm]
+  exact storeN_agree fmt _ _ _ _ ((agreeZ_iff _ _ _).mp (evalBV_eq_evalZ_fx σ fmt.isLong e hf hd))
+
+/-! ## statements and programs -/
+
+/-- **the part of the language the theorem covers, defect classes of C01 excluded** (decidable): every register read
+is owned, the tree is in the fixed-point fragment, and in none of *unary-in-place*, *narrow-reg-in-64*,
+*unary-32-in-64* -/
+def okF (o : List Nat) : CSt → Bool
+  | .reg no long e =>
+    C01.leavesOwnedB o e && e.frag && e.fxOnly && !unaryInPlace e true && !narrowIn64 e long true (.reg no) &&
+      !neg32in64 e long
+  | .mem fmt base _ e =>
+    o.contains base && C01.leavesOwnedB o e && e.frag && e.fxOnly && !unaryInPlace e false &&
+      !narrowIn64 e fmt.isLong false .any && !neg32in64 e fmt.isLong
+
+def ownersF (o : List Nat) : CSt → List Nat
+  | .reg no _ _ => if o.contains no then o else no :: o
+  | .mem _ _ _ _ => o
+
+/-- what a statement must do, with `val` the integer its destination has to hold (modulo the destination's width) -/
+def specWith (o : List Nat) (val : State → Int) : CSt → State → State → Prop
+  | .reg no long e => fun σ σ' =>
+    (divOk σ long e → AgreeZ long (σ'.regs no) (val σ)) ∧
+    (∀ n ∈ o, n ≠ no → σ'.regs n = σ.regs n) ∧ σ'.mem = σ.mem
+  | .mem fmt base off e => fun σ σ' =>
+    (∀ n ∈ o, σ'.regs n = σ.regs n) ∧
+    (divOk σ fmt.isLong e → σ'.mem = storeN σ.mem (σ.regs base + BitVec.ofInt 64 off) fmt.size
+      (BitVec.ofInt 64 (val σ)).toNat)
+
+def _root_.Ebv.GenFixed.CSt.rhs : CSt → Expr
+  | .reg _ _ e => e
+  | .mem _ _ _ e => e
+
+theorem stmtF_correct (c : CSt) (g g' : GenState) (hok : okF g.owners c = true) (h : c.emit g = .ok ((), g')) :
+    Emits g g' (specWith g.owners (fun σ => evalZ σ c.rhs) c) ∧ g'.owners = ownersF g.owners c := by
+  cases c with
+  | reg no long e =>
+    simp only [CSt.emit] at h
+    simp only [okF, Bool.and_eq_true, Bool.not_eq_true'] at hok
+    obtain ⟨⟨⟨⟨⟨h1, h2⟩, h3⟩, h4⟩, h5⟩, h6⟩ := hok
+    have hp : PreReg e no long g := ⟨C01.leavesOwnedB_sound h1, h2, h4, h5, h6⟩
+    exact ⟨C02_ops_reg e no long g g' hp h3 h, (setReg_correct e no long g g' hp h).2⟩
+  | mem fmt base off e =>
+    simp only [CSt.emit] at h
+    simp only [okF, Bool.and_eq_true, Bool.not_eq_true'] at hok
+    obtain ⟨⟨⟨⟨⟨⟨h0, h1⟩, h2⟩, h3⟩, h4⟩, h5⟩, h6⟩ := hok
+    have hp : PreMem e fmt base g := ⟨by simpa using h0, C01.leavesOwnedB_sound h1, h2, h4, h5, h6⟩
+    exact ⟨C02_ops_mem e fmt _ base off g g' rfl hp h3 h, (setMem_correct e fmt _ base off g g' rfl hp h).2⟩
+
+/-- a surface statement with what it compiles to -/
+structure Pair where
+  st : FStmt
+  c : CSt
+deriving DecidableEq
+
+def FStmt.rhs : FStmt → FExpr
+  | .set _ s => s
+
+def FStmt.destFixed (env : FEnv) : FStmt → Bool
+  | .set (.reg _ _) _ => false
+  | .set (.xreg _) _ => true
+  | .set (.var name) _ => env.fx.contains name
+
+/-- **the integer a statement's destination has to hold, in terms of what the user wrote**: the exact rational value
+of the surface expression, times `10^5` for a fixed destination, dropped by floor for an integer one -/
+def wantZ (env : FEnv) (st : FStmt) (σ : State) : Int := storeQ (FStmt.destFixed env st) ((FStmt.rhs st).semQ env σ)
+
+def pairs (env : FEnv) : List FStmt → Option (List Pair)
+  | [] => some []
+  | st :: sts =>
+    match compileF env st, pairs env sts with
+    | .ok c, some ps => some (⟨st, c⟩ :: ps)
+    | _, _ => Option.none
+
+def oksF (env : FEnv) (o : List Nat) : List Pair → Bool
+  | [] => true
+  | p :: ps => okF o p.c && (FStmt.rhs p.st).ok env && oksF env (ownersF o p.c) ps
+
+/-- sequential composition of the statement specifications, in terms of the surface expressions -/
+def specsF (env : FEnv) : List Nat → List Pair → State → State → Prop
+  | _, [] => fun σ σ' => σ'.regs = σ.regs ∧ σ'.mem = σ.mem
+  | o, p :: ps => fun σ σ'' => ∃ σ', specWith o (wantZ env p.st) p.c σ σ' ∧ specsF env (ownersF o p.c) ps σ' σ''
+
+/-- the compiled statement evaluates to what the surface statement asks for -/
+theorem compile_want (env : FEnv) (σ : State) (st : FStmt) (c : CSt) (hc : compileF env st = .ok c)
+    (hok : (FStmt.rhs st).ok env = true) : evalZ σ c.rhs = wantZ env st σ := by
+  cases st with
+  | set d s =>
+    simp only [compileF, bind, Except.bind] at hc
+    cases hv : elabF env s with
+    | error e => rw [hv] at hc; cases hc
+    | ok v =>
+      rw [hv] at hc
+      simp only [] at hc
+      cases he : ensureF v with
+      | error e => rw [he] at hc; cases hc
+      | ok fe =>
+        rw [he] at hc
+        simp only [] at hc
+        have hvn : v ≠ .none := by intro hh; subst hh; simp [ensureF, typeError] at he
+        obtain ⟨_, hrep⟩ := ensureF_rep (elabF_rep env σ s v hok hv hvn) he
+        cases d with
+        | reg view no =>
+          simp only [pure, Except.pure, Except.ok.injEq] at hc; subst hc
+          exact storeVal_rep σ false fe _ hrep
+        | xreg no =>
+          simp only [pure, Except.pure, Except.ok.injEq] at hc; subst hc
+          exact storeVal_rep σ true fe _ hrep
+        | var name =>
+          simp only [] at hc
+          cases hl : lookupVar env.locs name with
+          | none => rw [hl] at hc; cases hc
+          | some l =>
+            rw [hl] at hc
+            simp only [pure, Except.pure, Except.ok.injEq] at hc; subst hc
+            exact storeVal_rep σ (env.fx.contains name) fe _ hrep
+
+theorem specWith_congr (o : List Nat) (c : CSt) (v1 v2 : State → Int) (σ σ' : State) (h : v1 σ = v2 σ) :
+    specWith o v1 c σ σ' → specWith o v2 c σ σ' := by
+  cases c <;> simp only [specWith, h] <;> exact id
+
+theorem stmtsF_correct (env : FEnv) : ∀ (sts : List FStmt) (ps : List Pair) (g g' : GenState),
+    pairs env sts = some ps → oksF env g.owners ps = true → emitFStmts env sts g = .ok ((), g') →
+    Emits g g' (specsF env g.owners ps) := by
+  intro sts
+  induction sts with
+  | nil =>
+    intro ps g g' hp _ h
+    simp only [pairs, Option.some.injEq] at hp; subst hp
+    simp only [emitFStmts] at h
+    rw [pure_ok] at h
+    cases h
+    exact ⟨⟨[], by simp, by simp, fun σ => ⟨_, exec_nil σ, rfl, rfl⟩⟩, rfl⟩
+  | cons st sts ih =>
+    intro ps g g' hp hok h
+    simp only [pairs] at hp
+    split at hp
+    · rename_i c ps' hc hps
+      cases hp
+      simp only [oksF, Bool.and_eq_true] at hok
+      simp only [emitFStmts, emitFStmt, hc] at h
+      rw [bind_ok] at h
+      obtain ⟨u, g1, h1, h2⟩ := h
+      obtain ⟨he, ho⟩ := stmtF_correct c g g1 hok.1.1 h1
+      have hrest := ih ps' g1 g' hps (by rw [ho]; exact hok.2) h2
+      rw [ho] at hrest
+      obtain ⟨⟨c1, hc1, hs1, hr1⟩, hst1⟩ := he
+      have he' : Emits g g1 (specWith g.owners (wantZ env st) c) :=
+        ⟨⟨c1, hc1, hs1, fun σ => by
+          obtain ⟨σ', hx, hsp⟩ := hr1 σ
+          exact ⟨σ', hx, specWith_congr _ c _ _ σ σ' (compile_want env σ st c hc hok.1.2) hsp⟩⟩, hst1⟩
+      exact C01.emits_seq he' hrest
+    · cases hp
+
+/-! ## the property -/
+
+/-- every hypothesis of `C02_partial` as one decidable predicate on the program: every statement can be built, its
+surface expression satisfies `FExpr.ok` (decimals in range, not *sum-minus*, no `float // non-fixed`), the built
+statement is well-typed, in the fixed-point fragment and in none of C01's program-level classes -/
+def progOkF (p : FProg) : Bool :=
+  match pairs p.env p.stmts with
+  | some ps => oksF p.env p.owned ps
+  | Option.none => false
+
+/-- **C02 (partial)** — for every program satisfying `progOkF` that the generator accepts and every machine state:
+running the emitted code (`Ebpf.run`, from its first instruction) falls out at its end, and statement by statement:
+if every `DIV`/`MOD` node of the built tree has non-negative operands fitting the width (`divOk`: the fit
+precondition; excludes the inherited class *divmod-negative* and fixed values whose scaled integer does not fit a short
+destination's 32 bits), the destination holds — modulo its width — the exact rational value of the surface expression,
+times `10^5` for a fixed destination, dropped by floor for an integer destination; every other owned register and all
+other memory are unchanged. -/
+theorem C02_partial (p : FProg) (code : List Insn) (hok : progOkF p = true) (hemit : emitFProg p = .ok code) (σ : State) :
+    ∃ ps, pairs p.env p.stmts = some ps ∧
+      ∃ σ', run code (code.length + 1) { σ with pc := 0 } = .fell { σ' with pc := code.length } ∧
+        specsF p.env p.owned ps σ σ' := by
+  unfold progOkF at hok
+  split at hok
+  · rename_i ps hps
+    refine ⟨ps, hps, ?_⟩
+    unfold emitFProg at hemit
+    split at hemit
+    · rename_i u g' hg
+      cases hemit
+      cases u
+      obtain ⟨⟨c, hc, hst, hrun⟩, _⟩ := stmtsF_correct p.env p.stmts ps _ g' hps hok hg
+      simp only [List.nil_append] at hc
+      obtain ⟨σ', he, hsp⟩ := hrun σ
+      rw [hc]
+      exact ⟨σ', run_of_exec hst he _ (Nat.le_refl _), hsp⟩
+    · cases hemit
+  · cases hok
+
+/-- Boolean form of the fit precondition -/
+def divOkB (σ : State) (b : Bool) : Expr → Bool
+  | .bin op l r _ _ =>
+    divOkB σ b l && divOkB σ b r &&
+      (!(op == .div || op == .mod) ||
+        (decide (0 ≤ evalZ σ l) && decide (evalZ σ l < 2 ^ wbits b) && decide (0 ≤ evalZ σ r) && decide (evalZ σ r < 2 ^ wbits b)))
+  | _ => true
+
+theorem divOkB_sound (σ : State) (b : Bool) : ∀ e, divOkB σ b e = true → divOk σ b e := by
+  intro e
+  induction e with
+  | bin op l r sg k ihl ihr =>
+    intro h
+    simp only [divOkB, Bool.and_eq_true, Bool.or_eq_true, Bool.not_eq_true', decide_eq_true_eq] at h
+    refine ⟨ihl h.1.1, ihr h.1.2, fun hop => ?_⟩
+    rcases h.2 with h2 | h2
+    · rcases hop with hop | hop <;> subst hop <;> simp at h2
+    · exact ⟨h2.1.1.1, h2.1.1.2, h2.1.2, h2.2⟩
+  | _ => intro _; trivial
+
+/-- class *divmod-negative* (inherited from C01, input level): a `DIV`/`MOD` node of the built tree has a negative
+operand — every fixed × fixed product, `/`, `//`, `%` and every store of a fixed value into an integer destination -/
+def negAtDiv (σ : State) : Expr → Bool
+  | .bin op l r _ _ =>
+    negAtDiv σ l || negAtDiv σ r ||
+      ((op == .div || op == .mod) && (decide (evalZ σ l < 0) || decide (evalZ σ r < 0)))
+  | _ => false
+
+/-- signed fit at the divisions: what the property's precondition literally asks (no sign restriction) -/
+def fitS (σ : State) (b : Bool) : Expr → Bool
+  | .bin op l r _ _ =>
+    fitS σ b l && fitS σ b r &&
+      (!(op == .div || op == .mod) ||
+        (decide (-(2 ^ (wbits b - 1)) ≤ evalZ σ l) && decide (evalZ σ l < 2 ^ (wbits b - 1)) &&
+         decide (-(2 ^ (wbits b - 1)) ≤ evalZ σ r) && decide (evalZ σ r < 2 ^ (wbits b - 1))))
+  | _ => true
+
+/-- **the full-strength statement** (signed operands allowed): what the property text asks for.  Refuted below. -/
+def C02_full : Prop := ∀ (p : FProg) (code : List Insn) (no : Nat) (s : FExpr) (e : Expr),
+  p.stmts = [.set (.xreg no) s] → progOkF p = true → emitFProg p = .ok code →
+  compileF p.env (.set (.xreg no) s) = .ok (.reg no true e) → ∀ σ : State, fitS σ true e = true →
+    ∃ σ', run code (code.length + 1) { σ with pc := 0 } = .fell { σ' with pc := code.length } ∧
+      σ'.regs no = BitVec.ofInt 64 (wantZ p.env (.set (.xreg no) s) σ)
 
 end Ebv.C02
